@@ -220,29 +220,39 @@ def worker_main(argv):
                 mod.replay(ctx, rec['case'])
         else:
             mod.run(ctx)
-    except INTERNAL_ERRORS as e:
-        # Safety net: an internal error (assertion, index, key, attribute, unbound local ...) raised INSIDE the library and
-        # not anticipated by the workload is an observation about the library, not a harness failure: none of the
-        # properties allows such an exception to reach the caller.  Anything else still crashes the shard (inconclusive).
+    except Exception as e:
+        # Safety net.  (1) An internal error (assertion, index, key, attribute, unbound local ...) raised INSIDE the library
+        # and not anticipated by the workload is an observation about the library, not a harness failure: none of the
+        # properties allows such an exception to reach the caller.  (2) Any other exception that came out of a library call
+        # (walking the traceback from the raise outward, library code is met before harness code - e.g. re.error or a
+        # pickling error raised in the standard library on behalf of the library) at a place where the workload expects none:
+        # every call that may legitimately raise is wrapped by its workload, and on the unchanged tree nothing reaches this
+        # handler (it would have crashed the shard before this handler existed).  (3) datetime refusing what a tzinfo method
+        # of the library returned (|offset| >= 24 h; raised by C code, so the innermost Python frame is the harness).
+        # Anything raised by the harness itself still crashes the shard (inconclusive).
         import traceback
         tb = traceback.extract_tb(e.__traceback__)
         src = os.path.join(repo_root(), 'src') + os.sep
-        if not tb or not tb[-1].filename.startswith(src):
-            raise
-        where = '%s:%d in %s' % (tb[-1].filename[len(src):], tb[-1].lineno, tb[-1].name)
+        first = None
+        for f in reversed(tb):
+            if f.filename.startswith(src):
+                first = ('library', f)
+                break
+            if f.filename.startswith(VERIF + os.sep):
+                first = ('harness', f)
+                break
         calls = ['%s:%d %s' % (os.path.basename(f.filename), f.lineno, f.name) for f in tb[-6:]]
-        ctx.violation('library-internal-error', {'where': where, 'exception': type(e).__name__, 'stack': calls},
-                      '%s: %s raised at %s and escaped to the caller' % (type(e).__name__, e, where))
-    except ValueError as e:
-        # datetime itself refuses what a tzinfo method of the library returned (|offset| >= 24 h): raised by the C code on
-        # behalf of the library object, so the last Python frame is the harness - still an observation about the library
-        if 'offset must be a timedelta strictly between' not in str(e):
+        if first is not None and first[0] == 'library':
+            f = first[1]
+            where = '%s:%d in %s' % (f.filename[len(src):], f.lineno, f.name)
+            kind = 'library-internal-error' if isinstance(e, INTERNAL_ERRORS) else 'unanticipated-library-exception'
+            ctx.violation(kind, {'where': where, 'exception': type(e).__name__, 'stack': calls},
+                          '%s: %s came out of the library at %s where the workload expects no exception' % (type(e).__name__, e, where))
+        elif isinstance(e, ValueError) and 'offset must be a timedelta strictly between' in str(e):
+            ctx.violation('library-internal-error', {'where': 'utcoffset()/dst() of a library tzinfo', 'exception': 'ValueError', 'stack': calls},
+                          'a zone object reported an offset outside (-24 h, 24 h): %s' % e)
+        else:
             raise
-        import traceback
-        tb = traceback.extract_tb(e.__traceback__)
-        ctx.violation('library-internal-error', {'where': 'utcoffset()/dst() of a library tzinfo', 'exception': 'ValueError',
-                                                 'stack': ['%s:%d %s' % (os.path.basename(f.filename), f.lineno, f.name) for f in tb[-4:]]},
-                      'a zone object reported an offset outside (-24 h, 24 h): %s' % e)
     except BaseException as e:
         # a guard lock found the calling thread re-acquiring a non-reentrant lock it already holds (the call could never
         # return): a verdict derived from lock ownership, wherever in the workload it surfaced
